@@ -122,6 +122,8 @@ class Recorder:
                 ctx["attempt_dts"].append(float(kw["dt"]))
                 if res is None:
                     ctx["refusals"] += 1
+                else:
+                    ctx["last_ok_dt"] = float(kw["dt"])
             rec.emit("on_spsq", ctx, kw, res)
             return res
 
